@@ -56,7 +56,10 @@ type c01Handler struct {
 	ReadErr bool   // ReadMsg fails
 	Bid     c01Bid // signed with the bidder key, then perturbed
 	Tamper  string // "", amount, tx, bn, ds, de, digest, otherkey, malleate, v0, v29, nodigest, nosig, shortsig
-	Allow   bool
+	Allow   bool // allowance answer for the address that signed the bid (and for every other address but the peer's)
+	// the transport peer's EthAddress differs from the bid's signer; AllowPeer is the store's answer for it
+	PeerOther bool `json:",omitempty"`
+	AllowPeer bool `json:",omitempty"`
 	StoreOK bool
 	WriteOK bool
 	SignErr bool // the node key refuses to sign
@@ -73,6 +76,10 @@ type c01In struct {
 	// end-to-end case (zz_verif_c01e2e_test.go): a real node.NewNode provider, chain endpoint, engine over
 	// the node's gRPC API, a second libp2p peer as sender; H/Engine/Contract are unused then
 	E2E *c01E2EIn `json:",omitempty"`
+	// Engine "concurrent-store": handler 1 carries H.Bid, handlers 2.. carry Extra; all are accepted together
+	// and meet inside the chain client's Send, which answers them in the order Release (handler numbers)
+	Extra   []c01Bid `json:",omitempty"`
+	Release []int    `json:",omitempty"`
 }
 
 // ---- observations -----------------------------------------------------------------------------------
@@ -93,6 +100,7 @@ type c01Obs struct {
 	Sends   []c01Send
 	Writes  []c01Write
 	Pending int
+	Asked   [][]byte // addresses the allowance store was asked about, in order
 	Events  []string // Coq terms of the model events of this run
 	// timed cases (outer context without deadline): the decision events EventsAfter were issued TimedAt ms
 	// after the handler started; the checker orders them against the 5 s literal of Generated.v
@@ -130,17 +138,46 @@ func (k *c01Key) GetPrivateKey() (*ecdsa.PrivateKey, error)                     
 func (k *c01Key) ZeroPrivateKey(*ecdsa.PrivateKey)                                     {}
 func (k *c01Key) String() string                                                       { return "verif-key" }
 
-type c01Store struct{ allow bool }
+// the allowance store answers per address and records which addresses it was asked about
+type c01Store struct {
+	allow     bool
+	peer      common.Address
+	peerOther bool
+	allowPeer bool
+	mu        sync.Mutex
+	asked     [][]byte
+}
 
-func (s *c01Store) CheckBidderAllowance(context.Context, common.Address) bool { return s.allow }
+func (s *c01Store) CheckBidderAllowance(_ context.Context, a common.Address) bool {
+	s.mu.Lock()
+	s.asked = append(s.asked, append([]byte{}, a.Bytes()...))
+	s.mu.Unlock()
+	if s.peerOther && a == s.peer {
+		return s.allowPeer
+	}
+	return s.allow
+}
 
 type c01Evm struct {
 	mu    sync.Mutex
 	sends []c01Send
 	ok    bool
+	// concurrent-store: every Send parks at ENTRY, before it reads any field of the request (as the real
+	// EvmClient does: it takes its mutex and asks the node for the nonce first), announces itself on
+	// arrived and continues when its turn channel is closed
+	park    bool
+	arrived chan chan struct{}
 }
 
 func (e *c01Evm) Send(_ context.Context, tx *evmclient.TxRequest) (common.Hash, error) {
+	if e.park {
+		turn := make(chan struct{})
+		e.arrived <- turn
+		select {
+		case <-turn:
+		case <-time.After(20 * time.Second):
+		}
+	}
 	e.mu.Lock()
 	defer e.mu.Unlock()
 	var to []byte
@@ -244,6 +281,7 @@ var (
 	c01Validator *protovalidate.Validator
 	c01BidderKey *ecdsa.PrivateKey
 	c01OtherKey  *ecdsa.PrivateKey
+	c01PeerKey   *ecdsa.PrivateKey
 	c01NodeKey   *ecdsa.PrivateKey
 )
 
@@ -263,6 +301,7 @@ func c01Setup(t testing.TB) {
 		}
 		c01BidderKey = mk("b71c71a67e1177ad4e901695e1b4b9ee17ae16c6668d313eac2f96dbcda3f291")
 		c01OtherKey = mk("4c0883a69102937d6231471b5dbb6204fe5129617082792ae468d01a3f362318")
+		c01PeerKey = mk("2a871d0798f97d79848a013d4936a73bf4cc922c825d33c1cf7073dff6d409c6")
 		c01NodeKey = mk("8f2a55949038a9610f50fb23b5883af3b4ecb3c3bb792cbcefbd1542c692be63")
 	})
 }
@@ -401,11 +440,186 @@ func c01RunE2ECase(t testing.TB, e2 c01E2EIn, slow int) c01Obs {
 	return obs
 }
 
+// ---- several handlers accepted together, meeting inside the chain client ------------------------------------------
+
+func c01RunConcurrent(t testing.TB, in c01In, slow int) c01Obs {
+	c01Setup(t)
+	logger := slog.New(slog.NewTextHandler(io.Discard, nil))
+	ws := slow
+	if ws > 2 {
+		ws = 2
+	}
+	wait := time.Duration(ws) * 7 * time.Second
+	obs := c01Obs{Rets: [][2]int{}, Signed: [][]byte{}, Sends: []c01Send{}, Writes: []c01Write{}, Events: []string{},
+		TimedAt: -1, EventsAfter: []string{}}
+	ev := func(s string) { obs.Events = append(obs.Events, s) }
+	var wmu sync.Mutex
+
+	node := &c01Key{key: c01NodeKey, record: true}
+	signerAddr := crypto.PubkeyToAddress(c01BidderKey.PublicKey)
+	store := &c01Store{allow: true, peer: signerAddr}
+	evm := &c01Evm{ok: in.H.StoreOK, park: true, arrived: make(chan chan struct{}, 8)}
+	api := providerapi.NewService(logger, nil, common.Address{}, nil, c01Validator)
+	da := preconfcontract.New(common.BytesToAddress(in.Contract), evm, logger)
+	p := preconfirmation.New(nil, nil, preconfsigner.NewSigner(node), store, api, da, logger)
+	handler := p.Streams()[0].Handler
+	plain := preconfsigner.NewSigner(&c01Key{key: c01NodeKey})
+
+	specs := append([]c01Bid{in.H.Bid}, in.Extra...)
+	n := len(specs)
+	bids := make([]*preconfpb.Bid, n+1)
+	kterms := make([]string, n+1)
+	type hres struct{ h, code int }
+	done := make(chan hres, 8)
+	rets := map[int]int{}
+	dec := &c01DecStream{idle: make(chan struct{}, 1), in: make(chan c01DecMsg), ret: make(chan error, 1)}
+	go func() { dec.ret <- api.SendProcessedBids(dec) }()
+	<-dec.idle
+	ok := true
+	for h := 1; h <= n && ok; h++ {
+		hh := in.H
+		hh.Bid, hh.Tamper = specs[h-1], ""
+		bid := c01MakeBid(hh)
+		bids[h] = bid
+		verify := "VErr"
+		if a, err := plain.VerifyBid(proto.Clone(bid).(*preconfpb.Bid)); err == nil {
+			verify = coqApp("VOk", coqBytes(a.Bytes()))
+		}
+		kterms[h] = "KFail"
+		if c, err := plain.ConstructPreConfirmation(proto.Clone(bid).(*preconfpb.Bid)); err == nil {
+			kterms[h] = coqApp("KOk", coqBytes(c.Digest), coqBytes(c.Signature))
+		}
+		ev(coqApp("Arrive", coqN(uint64(h)), coqZ(int64(p2p.PeerTypeBidder)),
+			coqRecord("o_read", "(Some "+c01CoqBid(bid)+")", "o_verify", verify, "o_allow", "true")))
+		ctx, cancel := context.WithTimeout(context.Background(), 20*time.Second)
+		st := &c01Stream{h: h, bid: bid, writeOK: in.H.WriteOK, evm: evm, mu: &wmu, writes: &obs.Writes}
+		go func(h int) {
+			defer cancel()
+			code := 0
+			func() {
+				defer func() {
+					if r := recover(); r != nil {
+						code = 9
+					}
+				}()
+				code = c01Code(handler(ctx, p2p.Peer{EthAddress: signerAddr, Type: p2p.PeerTypeBidder}, st), false)
+			}()
+			done <- hres{h, code}
+		}(h)
+		// the engine takes this bid
+		rctx, rcancel := context.WithCancel(context.Background())
+		rs := &c01RecvStream{ctx: rctx, got: make(chan *providerapiv1.Bid, 2)}
+		rdone := make(chan error, 1)
+		go func() { rdone <- api.ReceiveBids(&providerapiv1.EmptyMessage{}, rs) }()
+		select {
+		case <-rs.got:
+			ev(coqApp("EngineTake", coqN(uint64(h))))
+		case r := <-done:
+			rets[r.h] = r.code
+			ok = false
+		case <-time.After(wait):
+			ok = false
+		}
+		rcancel()
+		<-rdone
+	}
+	// all accepted; every handler runs into Send and parks there
+	turns := map[int]chan struct{}{}
+	if ok {
+		for h := 1; h <= n; h++ {
+			ev(coqApp("Lookup", "0%N", coqBytes(bids[h].Digest), "(1)%Z"))
+			ev(coqApp("Callback", "0%N"))
+			dec.in <- c01DecMsg{resp: &providerapiv1.BidResponse{BidDigest: bids[h].Digest, Status: 1}}
+			select {
+			case <-dec.idle:
+			case <-time.After(wait):
+				ok = false
+			}
+			// handlers reach Send one after the other, so that the turn channels can be told apart
+			select {
+			case turn := <-evm.arrived:
+				turns[h] = turn
+			case <-time.After(wait):
+				ok = false
+			}
+		}
+	}
+	order := in.Release
+	if len(order) != n {
+		order = nil
+		for h := n; h >= 1; h-- {
+			order = append(order, h)
+		}
+	}
+	// the model's TakeDecision (status received, commitment built, Send called) in the order in which the
+	// chain client gets to read the requests; then each Send returns and its handler writes
+	for h := 1; h <= n; h++ {
+		ev(coqApp("TakeDecision", coqN(uint64(h)), kterms[h]))
+	}
+	released := []int{}
+	for _, h := range order {
+		if turn, has := turns[h]; has {
+			released = append(released, h)
+			close(turn)
+			select {
+			case r := <-done:
+				rets[r.h] = r.code
+			case <-time.After(wait):
+			}
+		}
+		ev(coqApp("StoreRes", coqN(uint64(h)), coqBool(in.H.StoreOK)))
+		ev(coqApp("WriteRes", coqN(uint64(h)), coqBool(in.H.WriteOK)))
+	}
+	for _, turn := range turns { // safety net: nobody stays parked
+		select {
+		case <-turn:
+		default:
+			func() { defer func() { recover() }(); close(turn) }()
+		}
+	}
+	select {
+	case dec.in <- c01DecMsg{err: io.EOF}:
+	case <-time.After(time.Second):
+	}
+	for h := 1; h <= n; h++ {
+		if c, has := rets[h]; has {
+			obs.Rets = append(obs.Rets, [2]int{h, c})
+		} else {
+			obs.Rets = append(obs.Rets, [2]int{h, 98})
+		}
+	}
+	node.mu.Lock()
+	obs.Signed = append(obs.Signed, node.signed...)
+	node.mu.Unlock()
+	// the k-th request the chain client read belongs to the k-th released handler; report the transactions in
+	// the order in which the handlers called Send (1..n), which is the order of the model's HSend effects
+	evm.mu.Lock()
+	if len(evm.sends) == len(released) {
+		for h := 1; h <= n; h++ {
+			for k, rh := range released {
+				if rh == h {
+					obs.Sends = append(obs.Sends, evm.sends[k])
+				}
+			}
+		}
+	} else {
+		obs.Sends = append(obs.Sends, evm.sends...)
+	}
+	evm.mu.Unlock()
+	store.mu.Lock()
+	obs.Asked = append([][]byte{}, store.asked...)
+	store.mu.Unlock()
+	return obs
+}
+
 // ---- one case -----------------------------------------------------------------------------------------
 
 func c01Run(t testing.TB, in c01In, slow int) c01Obs {
 	if in.E2E != nil {
 		return c01RunE2ECase(t, *in.E2E, slow)
+	}
+	if in.Engine == "concurrent-store" {
+		return c01RunConcurrent(t, in, slow)
 	}
 	c01Setup(t)
 	logger := slog.New(slog.NewTextHandler(io.Discard, nil))
@@ -420,7 +634,11 @@ func c01Run(t testing.TB, in c01In, slow int) c01Obs {
 	wait := time.Duration(ws) * 7 * time.Second
 
 	node := &c01Key{key: c01NodeKey, record: true, fail: in.H.SignErr}
-	store := &c01Store{allow: in.H.Allow}
+	peerAddr := crypto.PubkeyToAddress(c01BidderKey.PublicKey)
+	if in.H.PeerOther {
+		peerAddr = crypto.PubkeyToAddress(c01PeerKey.PublicKey)
+	}
+	store := &c01Store{allow: in.H.Allow, peer: peerAddr, peerOther: in.H.PeerOther, allowPeer: in.H.AllowPeer}
 	evm := &c01Evm{ok: in.H.StoreOK}
 	api := providerapi.NewService(logger, nil, common.Address{}, nil, c01Validator)
 	da := preconfcontract.New(common.BytesToAddress(in.Contract), evm, logger)
@@ -483,7 +701,7 @@ func c01Run(t testing.TB, in c01In, slow int) c01Obs {
 						code = c01Code(nil, true)
 					}
 				}()
-				err := handler(ctx, p2p.Peer{EthAddress: crypto.PubkeyToAddress(c01BidderKey.PublicKey), Type: p2p.PeerType(in.H.Role)}, st)
+				err := handler(ctx, p2p.Peer{EthAddress: peerAddr, Type: p2p.PeerType(in.H.Role)}, st)
 				code = c01Code(err, false)
 			}()
 			done <- hres{h, code}
@@ -717,6 +935,9 @@ func c01Run(t testing.TB, in c01In, slow int) c01Obs {
 	obs.Sends = append(obs.Sends, evm.sends...)
 	evm.mu.Unlock()
 	obs.Pending = c01PendingOf(api)
+	store.mu.Lock()
+	obs.Asked = append([][]byte{}, store.asked...)
+	store.mu.Unlock()
 	return obs
 }
 
@@ -742,6 +963,10 @@ func c01Coq(id int, in c01In, obs c01Obs) string {
 		writes = append(writes, coqRecord("wo_h", coqN(uint64(w.H)), "wo_c", c01CoqPreconf(w.C),
 			"wo_sends_ok_before", coqN(uint64(w.SendsOKPrev))))
 	}
+	asked := []string{}
+	for _, a := range obs.Asked {
+		asked = append(asked, coqBytes(a))
+	}
 	timed := "None"
 	if obs.TimedAt >= 0 {
 		timed = "(Some " + coqN(uint64(obs.TimedAt)) + ")"
@@ -753,7 +978,7 @@ func c01Coq(id int, in c01In, obs c01Obs) string {
 	return coqRecord("id", coqN(uint64(id)), "mode", coqN(uint64(obs.Mode)), "contract", coqBytes(contract), "evs", coqList(obs.Events),
 		"timed_at", timed, "evs_after", coqList(obs.EventsAfter),
 		"ob", coqRecord("o_rets", coqList(rets), "o_signed", coqList(signed), "o_sends", coqList(sends),
-			"o_writes", coqList(writes), "o_pending", "0%N"))
+			"o_writes", coqList(writes), "o_asked", coqList(asked), "o_pending", "0%N"))
 }
 
 // ---- generators -------------------------------------------------------------------------------------------
@@ -837,6 +1062,23 @@ func c01Generate(r *rand.Rand, class string) c01In {
 		in.H.Tamper = c01Tampers[r.Intn(len(c01Tampers))]
 	case "allowance":
 		in.H.Allow = false
+	case "concurrent-store":
+		in.Engine = "concurrent-store"
+		k := 1 + r.Intn(2)
+		for i := 0; i < k; i++ {
+			in.Extra = append(in.Extra, c01GoodBid(r))
+		}
+		perm := r.Perm(k + 1)
+		for _, x := range perm {
+			in.Release = append(in.Release, x+1)
+		}
+		if r.Intn(5) == 0 {
+			in.H.StoreOK = false
+		}
+	case "peer-funded": // the transport peer is funded, the key that signed the bid is not
+		in.H.PeerOther, in.H.AllowPeer, in.H.Allow = true, true, false
+	case "signer-funded": // the signer is funded, the transport peer is not
+		in.H.PeerOther, in.H.AllowPeer, in.H.Allow = true, false, true
 	case "format":
 		in.H.Bid = c01FormatBreak(r, in.H.Bid)
 	case "read":
@@ -860,6 +1102,9 @@ func c01Generate(r *rand.Rand, class string) c01In {
 		}
 		if r.Intn(4) == 0 {
 			in.H.Allow = false
+		}
+		if r.Intn(3) == 0 {
+			in.H.PeerOther, in.H.AllowPeer = true, r.Intn(2) == 0
 		}
 		if r.Intn(4) == 0 {
 			in.H.Bid = c01FormatBreak(r, in.H.Bid)
@@ -968,10 +1213,10 @@ func c01Main(t *testing.T, classes []string, reps int, timed int, e2e int) {
 }
 
 func TestVerifC01(t *testing.T) {
-	c01Main(t, []string{"accepted", "role", "tamper", "tamper", "allowance", "format", "format", "read", "engine", "engine",
-		"engine", "store", "write", "signer", "matrix", "matrix", "matrix"}, 1, map[bool]int{true: 4, false: 1}[os.Getenv("VERIF_TIER") == "thorough"], 3)
+	c01Main(t, []string{"accepted", "role", "tamper", "tamper", "allowance", "peer-funded", "signer-funded", "format", "format", "read", "engine", "engine",
+		"engine", "store", "write", "signer", "concurrent-store", "matrix", "matrix", "matrix"}, 1, map[bool]int{true: 4, false: 1}[os.Getenv("VERIF_TIER") == "thorough"], 3)
 }
 
 func TestVerifC07(t *testing.T) {
-	c01Main(t, []string{"accepted", "accepted", "accepted", "store", "write", "engine", "matrix"}, 2, 0, 1)
+	c01Main(t, []string{"accepted", "accepted", "concurrent-store", "concurrent-store", "store", "write", "engine", "matrix"}, 2, 0, 1)
 }
